@@ -250,7 +250,7 @@ pub fn run(run: &Run) {
     run.require_label("has-update-engine", 1);
 }
 
-pub fn replay(case: &Value) -> Result<(), Failure> {
+pub fn replay(_run: &Run, case: &Value) -> Result<(), Failure> {
     let opts = Opts::parse(case["opts"].as_str().unwrap_or_default());
     if let Some(sw) = case["sweep"].as_array() {
         let sb = Sandbox::new();
